@@ -135,7 +135,7 @@ func c05ExecPeriodic(sc c05Periodic) string {
 		if ok {
 			break
 		}
-		if sc.Commit || time.Now().After(deadline) {
+		if sc.Commit || deadlinePassed(deadline) {
 			return fmt.Sprintf("settled positions %v not durable (store: %v) after %d rejected save(s), commit=%v", want, dur, fails, sc.Commit)
 		}
 		time.Sleep(time.Millisecond)
